@@ -1641,11 +1641,69 @@ func (g *nmGen) tickOp(tr *nmTrack) nmOp {
 	return nmOp{Kind: "newEpoch", Epoch: e, Signers: sg}
 }
 
+// twinPattern puts the SAME key into both candidate formats and lets the two
+// records diverge (state and descriptor) before a tick: legacy and structured
+// record in either order, a state change that hits whatever exists at that
+// moment, one of the twins re-announced (back to Online) or both removed and
+// one re-added, then the tick that publishes both maps.
+func (g *nmGen) twinPattern(step int, tr *nmTrack) []nmOp {
+	r := g.r
+	i := r.Intn(len(g.n.nodes))
+	key := g.keyOf(i)
+	tag := byte(step)
+	legacy := func() nmOp {
+		if r.Intn(2) == 0 {
+			return nmOp{Kind: "addPeerIR", Info: g.n.info(i, tag+byte(r.Intn(3)), 3), Signers: []int{-1}}
+		}
+		return nmOp{Kind: "addPeer", Info: g.n.info(i, tag+byte(r.Intn(3)), 3), Signers: []int{-1, i}}
+	}
+	structured := func() nmOp {
+		return nmOp{Kind: "addNode", Addrs: []string{fmt.Sprintf("tw%d-%d", i, r.Intn(3))}, Attrs: [][2]string{{"t", fmt.Sprint(r.Intn(3))}},
+			Key: key, State: 1, Signers: []int{-1, i}}
+	}
+	state := func(st int64) nmOp {
+		if r.Intn(2) == 0 {
+			return nmOp{Kind: "updateStateIR", State: st, Key: key, Signers: []int{-1}}
+		}
+		return nmOp{Kind: "updateState", State: st, Key: key, Signers: []int{-1, i}}
+	}
+	var ops []nmOp
+	first, second := legacy, structured
+	if r.Intn(2) == 0 {
+		first, second = structured, legacy
+	}
+	ops = append(ops, first())
+	if r.Intn(2) == 0 {
+		ops = append(ops, state(3)) // only the first twin exists yet
+	}
+	ops = append(ops, second())
+	switch r.Intn(5) {
+	case 0:
+		ops = append(ops, state(3), first()) // both in Maintenance, one back to Online
+	case 1:
+		ops = append(ops, state(3), second())
+	case 2:
+		ops = append(ops, state(2), first()) // both removed, one twin re-added
+	case 3:
+		ops = append(ops, state(3), state(1), second())
+	}
+	ops = append(ops, nmOp{Kind: "newEpoch", Epoch: tr.epoch + 1, Signers: []int{-1}})
+	if r.Intn(3) == 0 {
+		ops = append(ops, state(3), nmOp{Kind: "newEpoch", Epoch: tr.epoch + 2, Signers: []int{-1}})
+	}
+	return ops
+}
+
 func (g *nmGen) nextC06(step int, tr *nmTrack) nmOp {
 	r := g.r
 	n := g.n
 	var op nmOp
 	if q, ok := g.pop(); ok {
+		return q
+	}
+	if r.Intn(9) == 0 {
+		g.queue = g.twinPattern(step, tr)
+		q, _ := g.pop()
 		return q
 	}
 	if r.Intn(7) == 0 {
@@ -1839,6 +1897,37 @@ func nmCorpus(prop string, n *nmEnv) [][]nmOp {
 	// thresholds (-4) is refused; only the 2n/3+1 account (-1) is the Alphabet
 	by := func(op nmOp, sg ...int) nmOp { op.Signers = sg; return op }
 	gates := func(op nmOp) []nmOp { return []nmOp{by(op, -2), by(op, -3), by(op, -4), by(op, -2, -3)} }
+	// twins: the same key in both candidate formats with diverging states and
+	// descriptors, in both orders, each followed by a tick that publishes both maps
+	// (legacy map: the legacy record's own state; structured list: the structured one's)
+	twins := func() []nmOp {
+		var out []nmOp
+		e := int64(0)
+		tk := func() nmOp { e++; return tick(e) }
+		pIR := func(i int, tag byte) nmOp { return nmOp{Kind: "addPeerIR", Info: n.info(i, tag, 3), Signers: al} }
+		p := func(i int, tag byte) nmOp {
+			return nmOp{Kind: "addPeer", Info: n.info(i, tag, 3), Signers: []int{-1, i}}
+		}
+		st := func(i int, v int64) nmOp {
+			return nmOp{Kind: "updateState", State: v, Key: n.nodes[i].pub, Signers: []int{-1, i}}
+		}
+		stIR := func(i int, v int64) nmOp {
+			return nmOp{Kind: "updateStateIR", State: v, Key: n.nodes[i].pub, Signers: al}
+		}
+		// structured Maintenance, legacy Online (the demo of the seeded change)
+		out = append(out, addN(0, "a"), st(0, 3), pIR(0, 1), tk())
+		// legacy Maintenance, structured Online
+		out = append(out, p(1, 1), stIR(1, 3), addN(1, "b"), tk())
+		// both Maintenance, then each twin alone back to Online
+		out = append(out, st(0, 3), addN(0, "a2"), tk(), stIR(0, 3), p(0, 2), tk())
+		// both Online -> both Maintenance -> both Online through updateState
+		out = append(out, st(1, 3), tk(), st(1, 1), tk())
+		// removal takes both twins; one is re-added alone (legacy, then structured)
+		out = append(out, stIR(0, 2), pIR(0, 3), tk(), nmOp{Kind: "deleteNode", Key: k0, Signers: al}, addN(0, "a3"), tk())
+		// a third key: structured first, Offline legacy never published, diverging descriptors
+		out = append(out, addN(2, "c"), pIR(2, 1), st(2, 3), pIR(2, 2), addN(2, "c2"), tk(), stIR(2, 3), addN(2, "c2"), tk())
+		return out
+	}
 	switch prop {
 	case "C06":
 		return [][]nmOp{
@@ -1877,6 +1966,7 @@ func nmCorpus(prop string, n *nmEnv) [][]nmOp {
 				tick(256),
 			},
 			reannounce(),
+			twins(),
 			{ // several transactions per block: [newEpoch(2), addPeerIR(n2), newEpoch(3)] - both ticks
 				// are individually valid and see the same ledger.CurrentIndex(); then
 				// [subscribe, tick], two ticks, tick + refused tick + tick, and a block whose
@@ -1967,6 +2057,7 @@ func nmCorpus(prop string, n *nmEnv) [][]nmOp {
 				tick(4),
 			},
 			reannounce(),
+			twins(),
 			// LAST: run on a 3-key committee
 			cat([]nmOp{by(nmOp{Kind: "addPeer", Info: n.info(0, 1, 4)}, -2, 0), by(nmOp{Kind: "addPeer", Info: n.info(0, 1, 4)}, -3, 0),
 				by(nmOp{Kind: "addPeer", Info: n.info(0, 1, 4)}, -1, 0), by(addN(1, "b"), -2, 1), by(addN(1, "b"), -4, 1), addN(1, "b")},
@@ -1997,6 +2088,12 @@ func nmCorpus(prop string, n *nmEnv) [][]nmOp {
 			cat(ticks(1, 1), []nmOp{{Kind: "newEpoch", Epoch: 2, Signers: al, Join: true},
 				{Kind: "addPeerIR", Info: n.info(3, 3, 2), Signers: al, Join: true}, func() nmOp { o := addN(3, "3"); o.Join = true; return o }(), tick(3),
 				{Kind: "newEpoch", Epoch: 4, Signers: al, Join: true}, tick(5), resize(3)}, ticks(6, 8)),
+			// sequences of resizes of a wrapped ring enlarged above the current epoch
+			cat(ticks(1, 10), []nmOp{resize(12), resize(10)}, ticks(11, 13)),
+			cat(ticks(1, 10), []nmOp{resize(12)}, ticks(11, 11), []nmOp{resize(11)}, ticks(12, 14)),
+			cat(ticks(1, 11), []nmOp{resize(12), resize(9)}, ticks(12, 14), []nmOp{resize(11), resize(12), resize(3)}, ticks(15, 16)),
+			// the same on a ring that has not wrapped yet: up-up, up-down, down-up with 0/1 ticks between
+			cat(ticks(1, 4), []nmOp{resize(11), resize(12)}, ticks(5, 5), []nmOp{resize(4), resize(6)}, ticks(6, 7), []nmOp{resize(5)}, ticks(8, 9)),
 			// empty candidate set after non-empty maps, ring of 2: the reused slots must hold the empty map
 			cat(ticks(1, 2), []nmOp{resize(2), {Kind: "deleteNode", Key: n.nodes[1%len(n.nodes)].pub, Signers: al},
 				{Kind: "deleteNode", Key: n.nodes[2%len(n.nodes)].pub, Signers: al}, tick(3), tick(4), tick(5)}),
@@ -2138,8 +2235,60 @@ func runNetmapFamily(t *testing.T, prop string) {
 		}
 		var pts []pt
 		r := Rng(77)
+		// seqPoint: t0 ticks on the default ring (not wrapped / exactly wrapped /
+		// wrapped), then two or three resizes whose new count is chosen relative to
+		// the current epoch and the current count (epoch-1, epoch, epoch+1, epoch+2,
+		// a little up, a little down) with 0, 1 or a few ticks between them
+		seqPoint := func() pt {
+			t0 := []int{0, 1, 3, 9, 10, 10, 11, 12, 13}[r.Intn(9)]
+			p := pt{ticks: []int{t0}, light: true}
+			epoch, count := int64(t0), int64(10)
+			nres := 2 + r.Intn(2)
+			for j := 0; j < nres; j++ {
+				var c int64
+				switch r.Intn(6) {
+				case 0:
+					c = epoch - 1
+				case 1:
+					c = epoch
+				case 2:
+					c = epoch + 1
+				case 3:
+					c = epoch + 2
+				case 4:
+					c = count + 1 + int64(r.Intn(2))
+				default:
+					c = count - 1 - int64(r.Intn(3))
+				}
+				if c < 1 {
+					c = 1
+				}
+				if c > 14 {
+					c = 14
+				}
+				if c == count {
+					if c < 14 {
+						c++
+					} else {
+						c--
+					}
+				}
+				between := []int{0, 0, 1, 1, 2, 3}[r.Intn(6)]
+				if j == nres-1 {
+					between = 2 + r.Intn(3)
+				}
+				p.counts = append(p.counts, c)
+				p.ticks = append(p.ticks, between)
+				epoch += int64(between)
+				count = c
+			}
+			return p
+		}
 		if !thorough {
-			for i := 0; i < 30; i++ {
+			for i := 0; i < 14; i++ {
+				pts = append(pts, seqPoint())
+			}
+			for i := 0; i < 20; i++ {
 				c1 := int64(1 + r.Intn(12))
 				c2 := int64(1 + r.Intn(12))
 				t0 := r.Intn(4)
@@ -2175,6 +2324,22 @@ func runNetmapFamily(t *testing.T, prop string) {
 						pts = append(pts, pt{counts: []int64{old, nw}, ticks: []int{0, int(old + pos), int(nw) + 2}, light: true})
 					}
 				}
+			}
+			// ... a wrapped (or just not wrapped) default ring enlarged around the current
+			// epoch and resized again after 0, 1 or 3 ticks, to every count ...
+			for _, t0 := range []int{9, 10, 11, 13} {
+				for _, a := range []int64{11, 12, 14} {
+					for _, between := range []int{0, 1, 3} {
+						for b := int64(1); b <= 14; b++ {
+							if b != a {
+								pts = append(pts, pt{counts: []int64{a, b}, ticks: []int{t0, between, 3}, light: true})
+							}
+						}
+					}
+				}
+			}
+			for i := 0; i < 60; i++ {
+				pts = append(pts, seqPoint())
 			}
 			// ... and random longer ones with up to three resizes and short windows
 			for i := 0; i < 150; i++ {
